@@ -476,3 +476,17 @@ Definition hf_mult (k : Z) : Z := Z.shiftr ((k * 11400714819323198485) mod 2 ^ 6
 (* hits the two special code values: 0 (the hash field of an empty slot) and 0xDEAD (tombstone) *)
 Definition hf_special (k : Z) : Z :=
   if k mod 3 =? 0 then 0 else if k mod 3 =? 1 then tombstone else k.
+
+(* the role checker along a whole history: every call's log is checked against the table the call
+   was made on *)
+Fixpoint roles_run (hf : Z -> Z) (rs : rstate) (cs : list op) (o : list bool) : bool :=
+  match cs with
+  | [] => true
+  | c :: cs' =>
+      let '(x, lg, o') := step hf rs c o in
+      roles_okb (fst rs) c lg &&
+      match x with
+      | Ret (_, rs') => roles_run hf rs' cs' o'
+      | _ => true
+      end
+  end.
